@@ -37,8 +37,9 @@ def run_chunk_bounds(case, acc, order):
             op = {'n': n, 'chunk': chunk, 'overlap': overlap}
             nontrivial = overlap > 0 and n > chunk
             try:
-                cb = list(chunk_bounds(n, chunk, overlap=overlap))
-            except Exception as e:
+                with core.time_limit(5):
+                    cb = list(itertools.islice(chunk_bounds(n, chunk, overlap=overlap), 4 * n + 8))
+            except (Exception, core.CaseTimeout) as e:
                 acc.step(nontrivial, 'cb:exception')
                 viol(acc, 'chunk_bounds', 'call', type(e).__name__, case, op, 'a list of 4-tuples',
                      repr(e), order)
@@ -82,8 +83,10 @@ def run_excerpts(case, acc, order):
             nontrivial = n >= ne * size and ne >= 2
             if ne >= 2:
                 try:
-                    ex = list(excerpts(n, n_excerpts=ne, excerpt_size=size))
-                except Exception as e:
+                    with core.time_limit(5):
+                        ex = list(itertools.islice(excerpts(n, n_excerpts=ne, excerpt_size=size),
+                                                   4 * n + 8))
+                except (Exception, core.CaseTimeout) as e:
                     acc.step(nontrivial, 'ex:exception')
                     viol(acc, 'excerpts', 'call', type(e).__name__, case, op, 'list of (start,end)',
                          repr(e), order)
@@ -108,7 +111,7 @@ def run_excerpts(case, acc, order):
             # get_excerpts on data
             try:
                 out = get_excerpts(data, n_excerpts=ne, excerpt_size=size)
-            except Exception as e:
+            except (Exception, core.CaseTimeout) as e:
                 acc.step(nontrivial, 'gex:exception')
                 viol(acc, 'get_excerpts', 'call', type(e).__name__, case, op, 'an array', repr(e),
                      order)
@@ -181,7 +184,7 @@ def run_sizes(case, acc, order):
         nontrivial = len(sizes) >= 2 and any(s % chunk for s in sizes)
         try:
             b = _get_chunk_bounds(sizes, chunk)
-        except Exception as e:
+        except (Exception, core.CaseTimeout) as e:
             acc.step(nontrivial, 'gcb:exception')
             viol(acc, 'get_chunk_bounds', 'call', type(e).__name__, case, op, 'bounds', repr(e), order)
             continue
@@ -203,7 +206,7 @@ def run_sizes(case, acc, order):
                 rpb = list(r.part_bounds)
                 ns = r.n_samples
                 layouts.close_reader(r)
-            except Exception as e:
+            except (Exception, core.CaseTimeout) as e:
                 acc.step(nontrivial, 'reader:exception')
                 viol(acc, 'flat-reader', 'build', type(e).__name__, case, op, 'a reader', repr(e),
                      order)
@@ -241,12 +244,12 @@ def run_cbin(case, acc, order):
                         cb = list(r.chunk_bounds)
                         it = []
                         data_ok = True
-                        for i0, i1 in r.iter_chunks(cache=cache):
+                        for i0, i1 in itertools.islice(r.iter_chunks(cache=cache), 8 * n + 8):
                             it.append((int(i0), int(i1)))
                             if i1 > i0 and not np.array_equal(r[i0:i1], A[i0:i1]):
                                 data_ok = False
                         layouts.close_reader(r)
-                    except Exception as e:
+                    except (Exception, core.CaseTimeout) as e:
                         acc.step(nontrivial, 'cbin:exception')
                         viol(acc, 'cbin-reader', 'iter_chunks', type(e).__name__, case, op,
                              'intervals', repr(e), order)
